@@ -350,10 +350,111 @@ def natural_faults(acc, tier):
                     gen.purge_globals()
 
 
+# user hooks that raise on their n-th invocation ------------------------------------------------
+
+
+class HookBoom(Exception):
+    pass
+
+
+def hook_faults(acc, tier, shard, nshards):
+    """A user class predicate / __is_supertype__ / __type_order__ hook / dependent condition raises on its
+    n-th invocation, for every n up to the number of invocations of the fault-free run."""
+    from ovld import class_check
+
+    state = {"n": 0, "boom": None}
+
+    def tick(name):
+        state["n"] += 1
+        if state["boom"] is not None and state["n"] == state["boom"]:
+            raise HookBoom(f"{name} #{state['n']}")
+
+    @class_check
+    def IsK(cls):
+        tick("IsK")
+        return isinstance(cls, type) and cls.__name__.startswith("K")
+
+    class HM(type):
+        def __is_supertype__(cls, other):
+            tick("__is_supertype__")
+            return isinstance(other, type) and issubclass(other, K0)
+
+        def __type_order__(cls, other):
+            tick("__type_order__")
+            return NotImplemented
+
+    class Hooked(metaclass=HM):
+        pass
+
+    def cond(v):
+        tick("condition")
+        return isinstance(v, int) and v > 1
+
+    annot.PREDS["c18cond"] = cond
+    classes = dict(CLASSES, IsK=IsK, Hooked=Hooked)
+    mspecs = [M(0, "O", -1), M(1, "IsK", 0, "cn"), M(2, "Hooked", 1, "cn"), M(3, "K1", 2, "cn"), M(4, ["dep", "int", "c18cond"], 0, "cn"), M(5, "int")]
+    sigma = SIGMA + [("2", 2)]
+    ops = [("first call f(K1())", lambda p: p.ov.dispatch(SIGMA[1][1]), []),
+           ("first call f(2)", lambda p: p.ov.dispatch(2), []),
+           ("cache miss f(K0()) after f(5)", lambda p: p.ov.dispatch(SIGMA[0][1]), [5]),
+           ("cache miss f(2) after f(K1())", lambda p: p.ov.dispatch(2), [SIGMA[1][1]])]
+
+    def fresh(warm):
+        state["boom"] = None
+        p = gen.Program(classes, mspecs, annotate=annot.annotate)
+        for v in warm:
+            p.call((v,), {})
+        return p
+
+    expected = {}
+    for ci, (vn, v) in enumerate(sigma):
+        expected[ci] = {norm(fresh([]).call((v,), {}))}
+    idx = 0
+    for opname, op, warm in ops:
+        p = fresh(warm)
+        state["n"] = 0
+        try:
+            op(p)
+        except Exception:  # noqa
+            pass
+        N = state["n"]
+        acc.extra.setdefault("hook_invocations", {})[opname] = N
+        for n in range(1, N + 1):
+            idx += 1
+            if idx % nshards != shard:
+                continue
+            for ci, (vn, v) in enumerate(sigma):
+                for ei in (0, 1):
+                    p = fresh(warm)
+                    state["n"] = 0
+                    state["boom"] = n
+                    try:
+                        op(p)
+                        raised = False
+                    except HookBoom:
+                        raised = True
+                    except Exception as e:  # noqa
+                        raised = True
+                    state["boom"] = None
+                    ename, fn = probe_entries(p)[ei]
+                    del p.log[:]
+                    res = gen.run_call(fn, (v,), {}, p.log)
+                    acc.count("evaluations")
+                    acc.count("hook_fault_probes")
+                    d = judge(expected[ci], res)
+                    if d:
+                        acc.violation({"scenario": "hook:" + opname, "fault": {"at": ["hook-invocation", str(n)]}, "probe": vn, "entry": ename},
+                                      d, {"raised": raised, "expected": sorted(map(str, expected[ci])), "observed": list(norm(res))})
+            acc.count("fault_points_hooks")
+            acc.count("nontrivial")
+            gen.purge_globals()
+
+
 def shard(shard, nshards, tier, seed):
     acc = core.Acc(PROP)
     for sc in scenarios(tier):
         explore_scenario(sc, shard, nshards, acc)
+    hook_faults(acc, tier, shard, nshards)
     if shard == 0:
         natural_faults(acc, tier)
     return acc
@@ -364,6 +465,10 @@ def replay(case):
     if case["scenario"].startswith("natural:"):
         natural_faults(acc, "quick")
         return [(d, None) for _, d in acc.viol_ids]
+    if case["scenario"].startswith("hook:"):
+        hook_faults(acc, "quick", 0, 1)
+        return [(r["disc"], r["detail"]) for r in acc.viol if r["case"]["fault"] == case["fault"] and r["case"]["probe"] == case["probe"]
+                and r["case"]["scenario"] == case["scenario"] and r["case"]["entry"] == case["entry"]]
     for tier in ("quick", "thorough"):
         for sc in scenarios(tier):
             if sc.name == case["scenario"]:
@@ -388,7 +493,8 @@ def main(tier):
              "uncatchable exception is raised at EVERY library line event of the operation (k = 1..N, N measured per scenario); after "
              "each fault every corpus value is probed through both entry points, each on its own replay; the probe must give the "
              "complete behaviour or fail loudly with a non-dispatch error; natural faults: four kinds of invalid method at every "
-             "registration position, before and after first use, incl. normal behaviour after the offending method is removed; "
+             "registration position, before and after first use, incl. normal behaviour after the offending method is removed; a user "
+             "class predicate / __is_supertype__ / __type_order__ hook / dependent condition raising on its n-th invocation for every n; "
              "non-trivial = fault points (each changes where the operation stops)",
         assumptions=["CPython line events and exception injection from sys.settrace", "faults strike at line starts, one fault per execution"],
         coverage_extra={"exhaustive": True},
